@@ -458,8 +458,17 @@ where
     type Item = Step;
 
     fn next(&mut self) -> Option<Self::Item> {
-        let (Reverse(distance), step @ (_, v)) = self.heap.pop()?;
         let dist_ptr = self.dist.as_mut_ptr();
+
+        // The heap may hold superseded entries (a shorter path to the same
+        // vertex was found later); skip them instead of ending the iteration.
+        let (distance, step @ (_, v)) = loop {
+            let (Reverse(distance), step @ (_, v)) = self.heap.pop()?;
+
+            if distance == unsafe { *dist_ptr.add(v) } {
+                break (distance, step);
+            }
+        };
 
         for (x, w) in self.digraph.out_neighbors_weighted(v) {
             let distance = distance + w;
@@ -472,11 +481,7 @@ where
             }
         }
 
-        if distance == unsafe { *dist_ptr.add(v) } {
-            return Some(step);
-        }
-
-        None
+        Some(step)
     }
 }
 
